@@ -89,6 +89,7 @@ type fakeIDP struct {
 	jwksGet       func() jwk.Set
 	jwksRefresh   func() jwk.Set
 	jwksRefreshes int
+	badSeq        int
 }
 
 type rtInfo struct {
@@ -184,9 +185,18 @@ func (p *fakeIDP) fault(w http.ResponseWriter, mode string) bool {
 		w.Write([]byte(`unavailable`))
 		return true
 	case "badjson":
+		// a 200 whose body does not decode: alternately an HTML page and a truncated token response that carries real-looking,
+		// never-valid tokens (registered as minted, so that the log scans notice if a response body is ever logged)
 		w.Header().Set("Content-Type", "application/json")
 		w.WriteHeader(http.StatusOK)
-		w.Write([]byte(`<html>not json</html>`))
+		p.badSeq++
+		if p.badSeq%2 == 1 {
+			at, rt := fmt.Sprintf("at-%s-x%d", p.salt, p.badSeq), fmt.Sprintf("rt-%s-x%d", p.salt, p.badSeq)
+			p.minted = append(p.minted, at, rt)
+			fmt.Fprintf(w, `{"access_token":"%s","refresh_token":"%s","token_type":"Bearer","expires_in":3600`, at, rt)
+		} else {
+			w.Write([]byte(`<html>not json</html>`))
+		}
 		return true
 	}
 	return false
